@@ -77,7 +77,13 @@ func (r *validationResponseHandler) HandleValidationResponse(
 	resp *http.Response,
 	err error,
 ) (*http.Response, error) {
-	if err == nil && req.Method == http.MethodGet && resp.StatusCode == http.StatusNotModified {
+	// A stored response without validators cannot be validated: when the client
+	// sent preconditions of its own, a 304 answers those (it says that the
+	// client's copy is current, nothing about the stored one) and is passed on.
+	clientsOwn304 := err == nil && resp.StatusCode == http.StatusNotModified &&
+		ctx.Stored.Data.Header.Get("ETag") == "" && ctx.Stored.Data.Header.Get("Last-Modified") == "" &&
+		(req.Header.Get("If-None-Match") != "" || req.Header.Get("If-Modified-Since") != "")
+	if err == nil && req.Method == http.MethodGet && resp.StatusCode == http.StatusNotModified && !clientsOwn304 {
 		// RFC 9111 §4.3.3 Handling Validation Responses (304 Not Modified)
 		// RFC 9111 §4.3.4 Freshening Stored Responses upon Validation
 		updateStoredHeaders(ctx.Stored.Data, resp)
@@ -136,7 +142,7 @@ func (r *validationResponseHandler) HandleValidationResponse(
 		ccResp = ParseCCResponseDirectives(resp.Header)
 	}
 	switch {
-	case r.ce.CanStoreResponse(resp, ctx.CCReq, ccResp):
+	case !clientsOwn304 && r.ce.CanStoreResponse(resp, ctx.CCReq, ccResp):
 		// RFC 9111 §4.3.3 Handling Validation Responses (full response)
 		// RFC 9111 §3.2 Storing Responses
 		_ = r.rs.StoreResponse(req, resp, ctx.URLKey, ctx.Refs, ctx.Start, ctx.End, ctx.RefIndex)
